@@ -1,5 +1,6 @@
 (* C17 - harness entry point of the accept-boundary model.
-   case   = (rcpr (label ...))
+   case   = (flags (label ...))     flags = (1 if output.responds_to_cpr) + (2 if the session has the
+                                     user binding ('c-c', 'c-c'))
             label = (0 data) Write | (1 n) Read | (2) FlushInput | (3) FlushKeys | (4) Start
                   | (5) Exit | (6) ExitEnd | (7) CprRequest | (8) Close | (9) CprTimeout
    result = (snapshot ...) one per label:
@@ -10,7 +11,7 @@
             event  = (0) start | (1 late effect (key ...)) handler call | (2 late key) dropped
                    | (3 (key ...) (item ...)) thrown away by reset()
             result = (0 text) | (1) EOFError | (2) KeyboardInterrupt
-            flags  = (out_of_fuel cpr_not_consumed_alone unmodelled_handler) *)
+            flags  = (out_of_fuel unmodelled_handler) *)
 From Coq Require Import ZArith List Bool.
 From PTK Require Import Lib.Sx Lib.Py Model.C03_Vt100Parser Model.C17_Typeahead Model.C17_Emacs.
 Import ListNotations.
@@ -50,7 +51,7 @@ Definition snapshot (nlog : nat) (s : esys) : sx :=
       sx_list sx_res (results s);
       sx_str (prefix (par s));
       sx_list sx_ev (skipn nlog (rev (rlog c)));
-      L [sx_bool (oof c || C03_Vt100Parser.oof (par s)); sx_bool (cpr_bad c); sx_bool (unmod e)] ].
+      L [sx_bool (oof c || C03_Vt100Parser.oof (par s)); sx_bool (unmod e)] ].
 
 Definition dec_label (s : sx) : option label :=
   match s with
@@ -78,8 +79,10 @@ Fixpoint run_snap (ls : list label) (s : esys) : list sx :=
 Definition run_C17 (c : sx) : sx :=
   match c with
   | L [r; L ls] =>
-      match as_bool r, map_opt dec_label ls with
-      | Some rc, Some labels => L (run_snap labels (e_init_sys rc))
+      match r, map_opt dec_label ls with
+      | A f, Some labels =>
+          if (0 <=? f) && (f <=? 3) then L (run_snap labels (e_init_sys (Z.testbit f 0) (Z.testbit f 1)))
+          else bad_case
       | _, _ => bad_case
       end
   | _ => bad_case
